@@ -344,14 +344,39 @@ def _predicate_filter_rules(R, F, fn):
                 fr = forced_result(pos_cl, none_t[0])
                 R.ob(fr == {False}, "GUARD", c.where(), "GUARD|get_logs|absent-topic-no-match:get",
                      "a log with fewer topics than the filter position can still match: `log.topics.get(idx)` being None can return %s" % sorted(str(x) for x in fr))
+    # (iii) `log.topics.get(idx).is_some_and(|topic| ..)` / `.map_or(false, |topic| ..)`: absent => false by the adapter's own
+    # meaning; its result must be used monotonically for the position predicate
+    monotone_adapters = {}
+    for c in pos_cl.calls():
+        if pos_cl.is_cleanup(c.bb) or not c.args:
+            continue
+        m_ = c.method or ""
+        if m_ not in ("is_some_and", "map_or"):
+            continue
+        rt = origin(pos_cl, c.args[0])
+        gets = [x for x in calls_in(rt) if x[1].split("::")[-1] == "get" and LOG_TOPICS in (x[3] or x[4] or "")]
+        if not gets:
+            continue
+        if m_ == "map_or":
+            dflt = origin(pos_cl, c.args[1])
+            if not (dflt[0] == "const" and dflt[1] is False):
+                continue
+        n_idx += 1
+        okm, whym = false_forces_false(pos_cl, c)
+        R.ob(okm, "GUARD", c.where(), "GUARD|get_logs|absent-topic-no-match:get",
+             "a log with fewer topics than the filter position can still match: the result of `get(idx).%s(..)` is not what decides the position (%s)" % (m_, whym),
+             sample={"rule": "GUARD", "fn": "get_logs", "presence_test": "log.topics.get(idx).%s(..)" % m_, "absent": "false"})
+        for cid in ((c.func or {}).get("arg_cl") or []):
+            monotone_adapters[cid] = c
     R.floor("topic_presence_tests", n_idx, 2)
-    # alternatives of one position: `any`, monotone
-    anys = [c for c in pos_cl.calls() if not pos_cl.is_cleanup(c.bb) and (c.method or "") in ("any", "all") and (c.trait or "").endswith("Iterator")]
+    # alternatives of one position: `any`, monotone (in the position predicate itself, or in the closure a presence adapter runs)
+    under = [pos_cl] + [g for g in F.descendants(pos_cl.id) if g.id in monotone_adapters]
+    anys = [(g, c) for g in under for c in g.calls() if not g.is_cleanup(c.bb) and (c.method or "") in ("any", "all") and (c.trait or "").endswith("Iterator")]
     ok_alt, why = False, "no `any` over a position's alternatives"
-    if len(anys) == 1 and (anys[0].method or "") == "any":
-        ok_alt, why = false_forces_false(pos_cl, anys[0])
+    if len(anys) == 1 and (anys[0][1].method or "") == "any":
+        ok_alt, why = false_forces_false(*anys[0])
     elif anys:
-        why = "alternatives are combined with %s" % sorted({c.method for c in anys})
+        why = "alternatives are combined with %s" % sorted({c.method for _, c in anys})
     R.ob(ok_alt, "GUARD", pos_cl.where(), "GUARD|get_logs|alternatives", "a list position: %s" % why,
          sample={"rule": "GUARD", "fn": "get_logs", "alternatives": "any(topic == alternative), false => position does not match"})
     # every raw index into the log's topics must sit behind one of the presence tests
